@@ -283,6 +283,6 @@ func TestProp(t *testing.T) {
 		vt.Sub[LinkCase]{Prop: prop, Name: "link", Gen: genLink, Run: runLink, Classify: classifyLink}.WithBudget(500, 13000),
 		vt.Sub[LInfoCase]{Prop: prop, Name: "linkinfo", Gen: genLInfo, Run: runLInfo, Classify: classifyLInfo}.WithBudget(200, 5000),
 		vt.Sub[StabCase]{Prop: prop, Name: "symtab", Gen: genStab, Run: runStab, Classify: classifyStab}.WithBudget(100, 2500),
-		vt.Sub[RegCase]{Prop: prop, Name: "registry", Gen: genReg, Run: runReg, Classify: classifyReg}.WithBudget(50, 600),
+		vt.Sub[RegCase]{Prop: prop, Name: "registry", Gen: genReg, Run: runReg, Classify: classifyReg}.WithBudget(100, 600),
 	)
 }
